@@ -37,6 +37,18 @@ def corpus_lines(fam):
     return out
 
 
+def _item_key(ty, hx):
+    import struct
+    b = bytes.fromhex(hx) if hx != "-" else b""
+    if ty == "f32":
+        return struct.unpack("<f", b)[0]
+    if ty == "f64":
+        return struct.unpack("<d", b)[0]
+    if ty == "i64":
+        return struct.unpack("<q", b)[0]
+    return b
+
+
 def legacy_lines(fam, rng, count):
     """legacy images made by the Lean legacy ENCODERS from random contents (model first, implementation second)"""
     q = []
@@ -52,6 +64,10 @@ def legacy_lines(fam, rng, count):
             ex = (2 * k - bb) if (ver == 1 and n // (2 * k) > 0) else 0
             cnt = bb + ex + bin(n // (2 * k)).count("1") * k
             vals = qw.gen_values(rng, ty, cnt + 2)
+            # every level of a real image is sorted (only the base buffer of an image without the ORDERED flag is in arrival order)
+            nb = bb + ex
+            lv = vals[2 + nb:]
+            vals = vals[:2 + nb] + [x for j in range(0, len(lv), k) for x in sorted(lv[j:j + k], key=lambda h_: _item_key(ty, h_))]
             q.append("LEGACY quant.%s %d %d %d %d %d %s" % (ty, ver, k, rng.choice([0, 1, 0xd156]), rng.choice([0, 64, 2**40]) if ver == 1 else 0, n, " ".join(vals)))
     if not q:
         return []
